@@ -5,6 +5,16 @@ import json
 from checklib import cbytes, cbool, clist, cpair, cN
 
 ID = "C07"
+# source constants of this property: Gen/Params.v is regenerated from the working tree, Proofs/ParamsTie.vo
+# (lemma per constant: it is the value the models use) is built with the property (lib/paramsgen.py)
+import paramsgen
+EXTRA_TARGETS = [paramsgen.TARGET]
+
+
+def pre_build(ctx):
+    paramsgen.regenerate(ctx)
+
+
 HARNESS = "c07"
 N_CASES = {"quick": 12, "thorough": 40}       # number of small data files; the harness derives the other classes from it
 N_SEARCH = {"quick": 1, "thorough": 2}
